@@ -45,7 +45,8 @@ const (
 
 type ACS struct {
 	Binding, Location, Index, IsDefault string
-	NoIndex                             bool // leave the index attribute out altogether (not schema-valid, but met in the wild)
+	ResponseLocation                    string // the optional attribute of the endpoint type (not meant for consumer services; met in the wild)
+	NoIndex                             bool   // leave the index attribute out altogether (not schema-valid, but met in the wild)
 }
 
 // SLO is one SingleLogoutService entry; ResponseLocation is the optional attribute of that name.
@@ -136,6 +137,9 @@ func (d *SPDesc) Node() *Node {
 		}
 		if a.IsDefault != "" {
 			e.Set("isDefault", a.IsDefault)
+		}
+		if a.ResponseLocation != "" {
+			e.Set("ResponseLocation", a.ResponseLocation)
 		}
 		sp.Add(e)
 	}
@@ -251,6 +255,7 @@ type AuthnReq struct {
 	Scoping                   bool
 	Extensions                bool
 	Subject                   string // NameID of an optional Subject
+	SubjectKind               string // "" = Subject with that NameID (if any); "confirmation_only" / "name_id_and_confirmation" / "encrypted_id": the other shapes saml:SubjectType allows
 	Style                     Style
 }
 
@@ -291,7 +296,17 @@ func (a *AuthnReq) Node() *Node {
 	if a.Extensions {
 		root.Add(s.p("Extensions").Add(El("x:Hint", Attr{"xmlns:x", "urn:example:ext"}).SetText("h")))
 	}
-	if a.Subject != "" {
+	conf := func() *Node {
+		return s.a("SubjectConfirmation").Set("Method", "urn:oasis:names:tc:SAML:2.0:cm:holder-of-key")
+	}
+	switch {
+	case a.SubjectKind == "confirmation_only":
+		root.Add(s.a("Subject").Add(conf()))
+	case a.SubjectKind == "name_id_and_confirmation":
+		root.Add(s.a("Subject").Add(s.a("NameID").SetText(a.Subject)).Add(conf()))
+	case a.SubjectKind == "encrypted_id":
+		root.Add(s.a("Subject").Add(s.a("EncryptedID").Add(El("xenc:EncryptedData", Attr{"xmlns:xenc", "http://www.w3.org/2001/04/xmlenc#"}).Add(El("xenc:CipherData").Add(El("xenc:CipherValue").SetText("AAAA"))))))
+	case a.Subject != "":
 		root.Add(s.a("Subject").Add(s.a("NameID").SetText(a.Subject)))
 	}
 	if a.NameIDPolicy {
